@@ -329,6 +329,17 @@ theorem strip_of_plain (a : List Char) (ha : ∀ c ∈ a, plainChar c = true) : 
   rw [strip_plain a ha]; exact ⟨rfl, strip_plain a ha⟩
 
 open SymbolVerif.Lint.Strip in
+/-- idempotence on its own output, under a hypothesis on that output: if the stripped line holds no `//`,
+    no `/*`, no `"` and no `'` any more (every comment and literal of the line was well-formed and has been
+    consumed), stripping it again changes nothing.  MISSING for the full statement `strip (strip x) =
+    strip x`: the case of leftover openers (`a / *b`, an unpaired quote).  No counterexample exists among all
+    strings of length ≤ 6 over `/ * " ' a space` (the harness evaluates that on the implementation and on the
+    model on every run); the general proof needs the interplay of the four substitutions and is not done. -/
+theorem strip_idem_partial (x : List Char) (h1 : occurs ['/', '/'] (strip x) = false) (h2 : occurs ['/', '*'] (strip x) = false)
+    (h3 : ∀ c ∈ strip x, c ≠ '"') (h4 : ∀ c ∈ strip x, c ≠ '\'') : strip (strip x) = strip x :=
+  strip_id (strip x) h1 h2 h3 h4
+
+open SymbolVerif.Lint.Strip in
 /-- a witness inserted outside any comment / literal (nothing before it opens one) survives stripping -/
 theorem stripped_witness_survives (pre w post : List Char) (hp : ∀ c ∈ pre, plainChar c = true) (hw : ∀ c ∈ w, plainChar c = true) :
     strip (pre ++ w ++ post) = pre ++ w ++ strip post := by
